@@ -237,6 +237,16 @@ def run(ck: Check) -> None:
             ck.violation("after a call whose diagnostics could not be printed, the same call on a healthy standard output does not return its usual verdict (does not terminate / fails)",
                          {"stdout_of_first_call": mode, "first": first, "second": second}, f"after-broken-stdout:{second}")
             break
+    # the same named cases with warnings promoted to errors (-W error / PYTHONWARNINGS=error / pytest filterwarnings): advice to the caller is no error family
+    import copy as _copy
+    for c_, want_ in list(named):
+        c2 = Case(c_.op, c_.args, tag=c_.tag + "+Werror", enc="utf-8+Werror")
+        named.append((c2, want_))
+    for gpg_ in (False, True):
+        rk = [gen.key(1)]
+        rt = gen.envelope(gen.root_md(rk, 1, [gen.key(3)], 1, version=2))
+        ru = gen.sign_env(gen.envelope(gen.root_md(rk, 1, [gen.key(3)], 1, version=2)), rk, gpg_)
+        named.append((Case("vdeleg", ["root", ru, rt, gpg_], tag="named:role-root-on-root+Werror", enc="utf-8+Werror"), "OK"))
     res = ck.run_cases([n[0] for n in named], "corr:named-error-mappings/outcome-class")
     for (c, want), r in zip(named, res):
         ck.oracle_checks += 1
